@@ -4,6 +4,7 @@
 // LICENSE-MIT file in the root directory of this source tree.
 
 use std::sync::atomic::AtomicU8;
+#[cfg(not(ractor_verif))]
 use std::sync::atomic::AtomicUsize;
 use std::sync::atomic::Ordering;
 use std::sync::Mutex;
@@ -69,7 +70,10 @@ pub(crate) struct ActorProperties {
     pub(crate) stop: Mutex<Option<OneshotInputPort<StopMessage>>>,
     pub(crate) supervision: InputPort<SupervisionEvent>,
     pub(crate) message: InputPort<MuxedMessage>,
+    #[cfg(not(ractor_verif))]
     pub(crate) message_admission: AtomicUsize,
+    #[cfg(ractor_verif)]
+    pub(crate) message_admission: crate::verif::TracedUsize,
     pub(crate) tree: SupervisionTree,
     pub(crate) type_id: std::any::TypeId,
     #[cfg(feature = "cluster")]
@@ -131,7 +135,10 @@ impl ActorProperties {
                 stop: Mutex::new(Some(tx_stop)),
                 supervision: tx_supervision,
                 message: tx_message,
+                #[cfg(not(ractor_verif))]
                 message_admission: AtomicUsize::new(0),
+                #[cfg(ractor_verif)]
+                message_admission: crate::verif::TracedUsize::new(0),
                 tree: SupervisionTree::default(),
                 type_id: std::any::TypeId::of::<TActor::Msg>(),
                 #[cfg(feature = "cluster")]
